@@ -744,6 +744,7 @@ func VerifyFunction(ld *Loader, db *ContractDB, fn *ssa.Function, con *Contract)
 	x.cands.mark = x.b.Mark
 	x.cands.symf = func(arr string, out map[string]bool) { x.symbolsOf(arr, out, 3) }
 	x.checked = con.Arith == "checked"
+	x.usesSz = true
 	defer func() {
 		if r := recover(); r != nil {
 			switch e := r.(type) {
